@@ -20,6 +20,7 @@ import (
 	"testing"
 	"time"
 
+	"github.com/aptpod/iscp-go/transport"
 	"github.com/aptpod/iscp-go/transport/compress"
 	iquic "github.com/aptpod/iscp-go/transport/quic"
 	iwt "github.com/aptpod/iscp-go/transport/webtransport"
@@ -107,12 +108,17 @@ func newQuicPair(comp bool) (*pair, error) {
 		return nil, a.err
 	}
 	cfg := compress.Config{Enable: comp, Level: 6}
-	rt, err := iquic.New(iquic.Config{Connection: a.c, CompressConfig: cfg})
+	// compression is only in effect when the negotiated parameters name a level (as a dialled connection's do)
+	var qnp iquic.NegotiationParams
+	if comp {
+		qnp = iquic.NegotiationParams{NegotiationParams: transport.DialConfig{CompressConfig: cfg}.NegotiationParams()}
+	}
+	rt, err := iquic.New(iquic.Config{Connection: a.c, CompressConfig: cfg, NegotiationParams: qnp})
 	if err != nil {
 		lis.Close()
 		return nil, err
 	}
-	stp, err := iquic.New(iquic.Config{Connection: cc, CompressConfig: cfg})
+	stp, err := iquic.New(iquic.Config{Connection: cc, CompressConfig: cfg, NegotiationParams: qnp})
 	if err != nil {
 		lis.Close()
 		return nil, err
@@ -171,12 +177,16 @@ func newWebTransportPair(comp bool) (*pair, error) {
 		return nil, a.err
 	}
 	cfg := compress.Config{Enable: comp, Level: 6}
-	rt, err := iwt.New(iwt.Config{Connection: a.s, CompressConfig: cfg})
+	var wnp iwt.NegotiationParams
+	if comp {
+		wnp = iwt.NegotiationParams{NegotiationParams: transport.DialConfig{CompressConfig: cfg}.NegotiationParams()}
+	}
+	rt, err := iwt.New(iwt.Config{Connection: a.s, CompressConfig: cfg, NegotiationParams: wnp})
 	if err != nil {
 		closeAll()
 		return nil, err
 	}
-	stp, err := iwt.New(iwt.Config{Connection: cs, CompressConfig: cfg})
+	stp, err := iwt.New(iwt.Config{Connection: cs, CompressConfig: cfg, NegotiationParams: wnp})
 	if err != nil {
 		closeAll()
 		return nil, err
@@ -426,9 +436,13 @@ func runGood(c *vrun.Case, mk func(bool) (*pair, error), kind string) vrun.Resul
 	ok, _ := vrun.Watchdog(watchdog, func() {
 		if concurrent {
 			var wg sync.WaitGroup
-			for w := 0; w < 3; w++ {
+			writers := 3
+			if comp {
+				writers = 8 // the compressor is shared state between the writers of one transport
+			}
+			for w := 0; w < writers; w++ {
 				wg.Add(1)
-				go func(w int) { defer wg.Done(); sendAll(w, 3) }(w)
+				go func(w int) { defer wg.Done(); sendAll(w, writers) }(w)
 			}
 			wg.Wait()
 		} else {
